@@ -75,6 +75,8 @@ func monitor(prop string, h *History, res *common.Result) {
 		gcKeepsMonitor(prop, h, res)
 	case "C06":
 		sessionEndSeqMonitor(prop, h, res)
+	case "C08":
+		leaseMonitor(prop, h, res) // only seq:views:unlisted-hold-outlives-lease (see lv)
 	}
 	if (prop == "C10" || prop == "C09") && h.EmptyStart != "-" && h.EmptyStart != "" {
 		viol(res, prop, "seq:restart:empty-file-start-failed", "start-up fails on a zero-length state file - the image a kill between Truncate(0) and Write of a state-file rewrite leaves behind, i.e. a file the server itself produced: "+h.EmptyStart, h, len(h.Steps)-1, nil)
@@ -295,6 +297,14 @@ type leaseRec struct {
 
 func keyTokOfReq(req int) string { return impl.Tok(fmt.Sprintf("K%d", req)) }
 
+// lv reports a lease finding, except for C08, which runs the lease arithmetic only to know which
+// holds have outlived their lease (its own finding is reported with viol directly)
+func lv(res *common.Result, prop, sig, what string, h *History, at int, extra map[string]any) {
+	if prop != "C08" {
+		viol(res, prop, sig, what, h, at, extra)
+	}
+}
+
 func leaseMonitor(prop string, h *History, res *common.Result) {
 	const sec = int64(1000000000)
 	holds := map[string]*leaseRec{} // key token → record
@@ -333,7 +343,7 @@ func leaseMonitor(prop string, h *History, res *common.Result) {
 			}
 			if r, ok := holds[impl.Tok(k)]; ok && s.Resp.Ok && r.name == s.Op.Name {
 				if !r.ended && r.deadline >= 0 && now >= r.deadline {
-					viol(res, prop, "seq:lease:dead-key-accepted", fmt.Sprintf("%q succeeded at %d although the lease of that hold ran out at %d", s.Op.Line(), now, r.deadline), h, i, nil)
+					lv(res, prop, "seq:lease:dead-key-accepted", fmt.Sprintf("%q succeeded at %d although the lease of that hold ran out at %d", s.Op.Line(), now, r.deadline), h, i, nil)
 					return
 				}
 				r.ended = true
@@ -341,7 +351,7 @@ func leaseMonitor(prop string, h *History, res *common.Result) {
 		case "renew":
 			if r, ok := holds[impl.Tok(s.Op.Key)]; ok && s.Resp.Ok && r.name == s.Op.Name {
 				if r.ended || r.deadline < 0 || now >= r.deadline {
-					viol(res, prop, "seq:lease:dead-key-accepted", fmt.Sprintf("%q answered locked=true at %d for a hold that is ended=%v / lease deadline %d", s.Op.Line(), now, r.ended, r.deadline), h, i, nil)
+					lv(res, prop, "seq:lease:dead-key-accepted", fmt.Sprintf("%q answered locked=true at %d for a hold that is ended=%v / lease deadline %d", s.Op.Line(), now, r.ended, r.deadline), h, i, nil)
 					return
 				}
 				r.deadline = now + int64(s.Op.T)*sec
@@ -385,13 +395,22 @@ func leaseMonitor(prop string, h *History, res *common.Result) {
 			in := ok && contains(l.Keys, k)
 			switch {
 			case r.deadline < 0 && !in:
-				viol(res, prop, "seq:lease:unleased-hold-gone", fmt.Sprintf("hold %s of %q was taken without a lock timeout and nobody released it, yet it is gone at %d", k, r.name, now), h, i, nil)
+				lv(res, prop, "seq:lease:unleased-hold-gone", fmt.Sprintf("hold %s of %q was taken without a lock timeout and nobody released it, yet it is gone at %d", k, r.name, now), h, i, nil)
 				return
 			case r.deadline >= 0 && now < r.dmin && !in:
-				viol(res, prop, "seq:lease:early-release", fmt.Sprintf("hold %s of %q is gone at %d, before its lease deadline %d", k, r.name, now, r.deadline), h, i, nil)
+				lv(res, prop, "seq:lease:early-release", fmt.Sprintf("hold %s of %q is gone at %d, before its lease deadline %d", k, r.name, now, r.deadline), h, i, nil)
 				return
+			case r.deadline >= 0 && now >= r.deadline && in && prop == "C08":
+				// C08 runs this monitor for one thing only: a hold that outlives its lease while the listing
+				// (and the file) no longer show it - an orphan of a no-clear session end that never leaves the
+				// table - is a disagreement of the three views that K1 (orphans within their lease) does not cover
+				if lt, tt := strings.Join(holdsOfListing(&s.View), " "), strings.Join(holdsOfTable(&s.View), " "); lt != tt {
+					viol(res, prop, "seq:views:unlisted-hold-outlives-lease", fmt.Sprintf("hold %s of %q still occupies capacity at %d although its lease ran out at %d, and the listing does not show it: listing {%s}, lock table {%s}", k, r.name, now, r.deadline, lt, tt), h, i, nil)
+					return
+				}
+				r.ended = true
 			case r.deadline >= 0 && now >= r.deadline && in:
-				viol(res, prop, "seq:lease:late-release", fmt.Sprintf("hold %s of %q is still held at %d although its lease ran out at %d", k, r.name, now, r.deadline), h, i, nil)
+				lv(res, prop, "seq:lease:late-release", fmt.Sprintf("hold %s of %q is still held at %d although its lease ran out at %d", k, r.name, now, r.deadline), h, i, nil)
 				return
 			case r.deadline >= 0 && now >= r.deadline:
 				r.ended = true
